@@ -20,7 +20,7 @@
 From Coq Require Import String List ZArith NArith Bool.
 Import ListNotations.
 From Selfies Require Import Base Generated Atoms Grammar Decoder PySet Matching Smiles Kekulize Encoder
-  IndexSpec IndexCode Reader RoundTrip EncoderFacts PureFacts ParserTotal EncFuel EncIndex EncKey EncAttrErr EncUniq EncOrders EncKek EncMatch EncMatchSafe EncCount EncGreedy EncOutcomes.
+  IndexSpec IndexCode Reader RoundTrip EncoderFacts PureFacts ParserTotal EncFuel EncIndex EncKey EncAttrErr EncUniq EncOrders EncKek EncMatch EncMatchSafe EncCount EncGreedy EncGreedyT EncOutcomes.
 Local Open Scope string_scope.
 
 Theorem C09_parse_error_is_encoder_error_partial : forall capf s strict attribute,
@@ -133,6 +133,13 @@ Theorem C09_matching_raises_nothing_partial : forall smiles attribute m0 g e,
   smiles_to_mol smiles attribute = Ok m0 -> pruned_ds m0 = Ok g -> find_perfect_matching g = Err e -> e = OutOfFuel.
 Proof. exact parsed_matching_raises_nothing. Qed.
 
+(* the greedy phase also terminates (proofs/EncGreedyT.v): heap size + adjacency lengths of the unmatched nodes goes down
+   with every pop, so the fuel of the model - and the loop of the library - is never exhausted there: on the pruned graph
+   of a parsed molecule _greedy_matching always returns *)
+Theorem C09_greedy_phase_returns : forall smiles attribute m0 g,
+  smiles_to_mol smiles attribute = Ok m0 -> pruned_ds m0 = Ok g -> exists mt, greedy_matching g = Ok mt.
+Proof. exact parsed_greedy_total. Qed.
+
 (* everything assembled, for EVERY string, every table with a '?' entry and both flags: the model of encoder() returns, or
    raises EncoderError, or the reader's int() refuses an over-long digit field (ValueError: known finding), or ends in
    the model-only outcome OutOfFuel inside find_perfect_matching - i.e. NO OTHER EXCEPTION TYPE ESCAPES; what is not
@@ -169,6 +176,7 @@ Print Assumptions C09_last_stage_outcomes_partial.
 Print Assumptions C09_matching_raises_only_in_greedy_partial.
 Print Assumptions C09_encoder_outcomes_partial.
 Print Assumptions C09_matching_raises_nothing_partial.
+Print Assumptions C09_greedy_phase_returns.
 Print Assumptions C09_emission_no_assertion_error_partial.
 Print Assumptions C09_emission_no_value_error_partial.
 Print Assumptions C09_kekulize_leaves_integral_orders.
